@@ -185,9 +185,14 @@ func updateArgBytes(h []argsKV, key, value []byte) []argsKV {
 	n := len(h)
 	for i := 0; i < n; i++ {
 		kv := &h[i]
-		if kv.noValue && bytes.Equal(key, kv.key) {
-			kv.value = append(kv.value[:0], value...)
-			kv.noValue = ArgsHasValue
+		if bytes.Equal(key, kv.key) {
+			if kv.noValue {
+				kv.value = append(kv.value[:0], value...)
+				kv.noValue = ArgsHasValue
+			} else {
+				// a further line of the same field: the values combine into a list
+				kv.value = append(append(kv.value, ',', ' '), value...)
+			}
 			return h
 		}
 	}
